@@ -196,6 +196,20 @@ def _run_case(sub, case, ctx, known):
             ctx.known_hits[v.sig] += 1
             return ('known', v.sig)
         raise
+    except (HarnessAbort, KeyboardInterrupt, SystemExit, MemoryError):
+        raise
+    except Exception as e:  # noqa: BLE001
+        # an exception no check expected: if its innermost frame lies inside the repository it was raised by the library through a
+        # call the check left unwrapped - a crash of the library, reported as such (signature as lib() builds it); anything else
+        # is a bug of the harness and stays a harness error
+        sig = frame_sig(e)
+        if sig.endswith('@?') or isinstance(e, (NameError, ImportError)):
+            raise
+        v = Violation('crash:unwrapped:' + sig, repr(e)[:300])
+        if v.sig in known:
+            ctx.known_hits[v.sig] += 1
+            return ('known', v.sig)
+        raise v
     return None
 
 
